@@ -38,6 +38,41 @@ func same(model string, a, b, scale float64, isState bool, elapsed int, dt float
 	return math.Abs(a-b) <= 1e-9*math.Max(scale, math.Max(math.Abs(a), math.Abs(b)))+1e-12
 }
 
+// cutSets: every composition of T for the short words; for a long periodic series (T > 10) one cut in the middle, after
+// the first and before the last step, two cuts at the thirds, and a cut at every period boundary.
+func cutSets(T, period int) [][]bool {
+	var out [][]bool
+	if T <= 10 {
+		for mask := 1; mask < 1<<(T-1); mask++ {
+			c := make([]bool, T)
+			for t := 0; t < T-1; t++ {
+				c[t] = mask&(1<<t) != 0
+			}
+			out = append(out, c)
+		}
+		return out
+	}
+	one := func(ts ...int) {
+		c := make([]bool, T)
+		for _, t := range ts {
+			if t >= 0 && t < T-1 {
+				c[t] = true
+			}
+		}
+		out = append(out, c)
+	}
+	one(T/2 - 1)
+	one(0)
+	one(T - 2)
+	one(T/3-1, 2*T/3-1)
+	var every []int
+	for t := period - 1; period > 0 && t < T-1; t += period {
+		every = append(every, t)
+	}
+	one(every...)
+	return out
+}
+
 func oracle(model string) func(c *gridx.Case, r *vf.Rec) {
 	desc := sim.Catalog[model]().Description()
 	return func(c *gridx.Case, r *vf.Rec) {
@@ -61,14 +96,14 @@ func oracle(model string) func(c *gridx.Case, r *vf.Rec) {
 			}
 		}
 		seen := map[string]bool{}
-		for mask := 1; mask < 1<<(T-1); mask++ {
-			// cut after step t when bit t is set
+		for _, cutAfter := range cutSets(T, len(c.Word)) {
+			// cut after step t when cutAfter[t]
 			states := whole.Init
 			outs := make([][]float64, len(whole.Out))
 			from := 0
 			nseg := 0
 			for t := 0; t < T; t++ {
-				if t == T-1 || mask&(1<<t) != 0 {
+				if t == T-1 || cutAfter[t] {
 					seg := c.RunSeg(from, t+1, states)
 					for o := range outs {
 						outs[o] = append(outs[o], seg.Out[o]...)
@@ -110,13 +145,14 @@ func oracle(model string) func(c *gridx.Case, r *vf.Rec) {
 			}
 			cuts := []int{}
 			for t := 0; t < T-1; t++ {
-				if mask&(1<<t) != 0 {
+				if cutAfter[t] {
 					cuts = append(cuts, t+1)
 				}
 			}
 			sort.Strings(dOut)
 			sort.Strings(dSt)
-			cls := classify(model, c, dOut, dSt)
+			afterCut := firstT > 0 && cutAfter[firstT-1] // the first differing step is the first step of a later segment
+			cls := classify(model, c, dOut, dSt, afterCut, firstT)
 			detail := map[string]interface{}{"cuts_after_steps": cuts, "outputs_differing": dOut, "states_differing": dSt, "first_differing_step": firstT,
 				"whole_outputs": whole.Out, "split_outputs": outs, "whole_final_states": whole.States, "split_final_states": states}
 			if !seen[cls] { // every distinct class of discrepancy of this word is reported (a known one must not mask another)
@@ -222,7 +258,7 @@ func pairedCells(model string, c *gridx.Case, comp []float64, r *vf.Rec) bool {
 
 // classify names the discrepancy; narrow classes exist for the recorded findings so that any other
 // discontinuity of the same model gets a different signature.
-func classify(model string, c *gridx.Case, dOut, dSt []string) string {
+func classify(model string, c *gridx.Case, dOut, dSt []string, afterCut bool, firstT int) string {
 	_, names := gridx.Defaults(model)
 	p := map[string]float64{}
 	for i, n := range names {
@@ -251,7 +287,17 @@ func classify(model string, c *gridx.Case, dOut, dSt []string) string {
 			return "unit-hydrograph-buffer-not-in-state(flow-outputs-differ,states-equal,uh-lag>0)"
 		}
 	case "InstreamDissolvedNutrientDecay":
-		if p["doDecay"] >= 0.5 && len(dSt) == 0 && subset(dOut, "decayedLoad", "loadDownstream") {
+		// the kernel averages the reach volume with the previous step's, a local that every call re-initialises from its own
+		// first volume: the first step of a later segment sees another average depth, hence another decay and possibly the
+		// other travel-time branch (the only one that reports loadFromPointSource). Only that: the difference must start
+		// at the first step of a segment whose volume differs from the step before, with all states equal.
+		volumeChanges := false
+		for i, n := range sim.Catalog[model]().Description().Inputs {
+			if n == "reachVolume" && firstT > 0 && i < len(c.Inputs) && c.Inputs[i][firstT] != c.Inputs[i][firstT-1] {
+				volumeChanges = true
+			}
+		}
+		if p["doDecay"] >= 0.5 && len(dSt) == 0 && afterCut && volumeChanges && subset(dOut, "decayedLoad", "loadDownstream", "loadFromPointSource") {
 			return "previous-reach-volume-not-in-state(decay-outputs-differ,states-equal,decay-enabled)"
 		}
 	}
@@ -285,13 +331,21 @@ func spaces(tier string) []*gridx.Space {
 		}
 		out = append(out, &gridx.Space{Model: t.Model, Params: t.Params, PNames: t.PNames, Letters: t.Letters, T: T, Oracle: oracle(t.Model)})
 	}
+	// long periodic series (anything a kernel accumulates over the steps of one call, and that a split run restarts)
+	for _, t := range tables.Stateful() {
+		rep := 150
+		if tier == "thorough" {
+			rep = 400
+		}
+		out = append(out, &gridx.Space{Model: t.Model, Params: t.Params, PNames: t.PNames, Letters: t.Letters, T: 2, MinT: 2, Repeat: rep, SecondPassEvery: -1, Oracle: oracle(t.Model)})
+	}
 	return out
 }
 
 func Spec() *vf.Check {
 	return &vf.Check{
 		ID: "C06", Level: "exploration", BlockSize: 256,
-		Rule: "17 stateful models x the parameter vectors of tables.Stateful() (every state-shape variant and branch) x every input word of length T over the model's alphabet x every composition of T (2^(T-1)-1 split patterns incl. 1-step segments and multiple splits); " +
+		Rule: "17 stateful models x the parameter vectors of tables.Stateful() (every state-shape variant and branch) x every input word of length T over the model's alphabet x every composition of T (2^(T-1)-1 split patterns incl. 1-step segments and multiple splits), plus every two-letter word repeated 150 (thorough 400) times as one long series, cut in the middle / after the first step / before the last / at the thirds / at every period; " +
 			"concatenated outputs and final states vs the uninterrupted run; for Lag and GR4J (state row length depends on a parameter) the same again with the cell run in ONE vectorised call next to a companion cell with a longer state row (padded row; rectangular state array carried forward) (round-off tolerance; StorageRouting: the solver's mass-balance tolerance per elapsed step). distinct_nontrivial = words with a non-zero output; counters.split_runs = split patterns executed.",
 		Assumptions: []string{"StorageRouting's solver keeps an initial guess that is not a state: 2*massBalanceLimit per elapsed step is allowed on storage, the corresponding bound on outflow", "lattice values and horizon T only"},
 		Build:       func(tier string) vf.Enumeration { return gridx.NewEnum("C06", spaces(tier)) },
